@@ -306,6 +306,18 @@ def step2 (st : DState) (toks : List String) : DState × String :=
               let q' := if k == .response then q.success else q.error code
               ({ st with sock := sock, pq := some q' }, pqView q')))
       | _, _ => (st, "bad-op"))
+  | ["foreign", what] => (match st.pq with
+      | some q =>
+        let to : Addr := ⟨0x0A630909, 9999⟩
+        let (sock1, tid) := st.sock.add to st.now
+        let kind : Option Incoming := if what == "ok" then some .response else (what.toInt?).map fun _ => .error
+        (match kind with
+        | none => (st, "bad-op")
+        | some k =>
+          let (sock2, up) := sock1.recv k tid to st.now
+          if !up then ({ st with sock := sock2 }, "dropped") else
+          ({ st with sock := sock2 }, if q.isInflight tid then "claimed" else "unowned"))
+      | none => (st, "bad-op"))
   | ["check"] => (match st.pq with
       | some q => (st, match q.check st.sock st.now with
         | .ok true => "done-ok"
@@ -753,6 +765,14 @@ def step (st : DState) (line : String) : DState × String :=
         | .panic _ => "panic"
         | .ok none => "err"
         | .ok (some m) => s!"ok {showMsg m} | {bytesToHex (Krpc.toBytes m)}")
+      | none => "bad-op")
+  | ["enctid", n] => (st, match n.toNat? with
+      | some n =>
+        let m : Message := ⟨UInt32.ofNat n, none, none, .request ⟨⟨List.replicate 20 1⟩, .ping⟩, false⟩
+        let bs := Krpc.toBytes m
+        (match Krpc.fromBytes bs with
+        | .ok (some m') => s!"{bytesToHex bs} -> {m'.tid.toNat}"
+        | _ => s!"{bytesToHex bs} -> err")
       | none => "bad-op")
   | ["encint", t, seq, cas] => (st, match t.toNat?, seq.toInt?, optInt cas with
       | some t, some seq, some cas =>
